@@ -4,8 +4,9 @@ TypedProg.tla derives well-typed programs and then takes one Inject step: a stat
 definite static error -- an operator the operand types do not support (not even the most precise
 types of the two values), a call with the wrong number of arguments, an argument whose value lies
 outside the annotated parameter type, an undefined name, a missing attribute -- placed at one of
-five nesting depths (top level, function body, branch inside a function, lambda inside a list,
-call argument inside a nested block).  TLC checks IllTyped: the declared operator table has no
+seven nesting depths (top level, function body, branch inside a function, lambda inside a list,
+call argument inside a nested block, default value of a parameter, default value of a lambda
+parameter inside a loop body).  TLC checks IllTyped: the declared operator table has no
 typing for the injected statement.  The real compiler must reject every such program with at
 least one error and produce no code; the program without the injected statement must be accepted
 (otherwise the case is not judged).  A sample goes through `erg run`: nothing may be executed."""
